@@ -809,4 +809,241 @@ theorem residentForSave_frame (c : Cls) (tr : List Trans) (l : List SecBuf) (ls 
     · obtain ⟨l', e, f⟩ := ih ls (b :: acc)
       exact ⟨b :: l', by rw [e]; simp, FrameL.cons (ResFrame.refl b) f⟩
 
+/-! ### the output stream: `adjust_stream_size` + `write` -/
+
+/-- a stream that has not failed and has no byte budget -/
+def OStream.Good (s : OStream) : Prop := s.fail = false ∧ s.budget = none
+
+theorem write_good (s : OStream) (hg : s.Good) (bs : Bytes) :
+    s.write bs = { content := if s.pos + bs.length ≤ s.content.length then wr s.content s.pos bs
+                              else s.content.take s.pos ++ bs,
+                   pos := s.pos + bs.length, budget := none, fail := false } := by
+  obtain ⟨hf, hb⟩ := hg
+  unfold OStream.write
+  simp only [hf, hb, Bool.false_eq_true, if_false, List.take_length, Nat.lt_irrefl, decide_false]
+
+theorem adjust_spec (s : OStream) (hg : s.Good) (off : Nat) :
+    s.adjust (off : Int) = { content := s.content ++ List.replicate (off - s.content.length) 0, pos := off,
+                             budget := none, fail := false } := by
+  have hg' := hg
+  obtain ⟨hf, hb⟩ := hg
+  unfold OStream.adjust OStream.seekEnd OStream.tellp
+  simp only [hf, Bool.false_eq_true, if_false, Int.ofNat_eq_natCast]
+  by_cases hlt : s.content.length < off
+  · have h1 : ((s.content.length : Int) < (off : Int)) := by omega
+    simp only [h1, if_true]
+    have h2 : ((off : Int) - (s.content.length : Int)).toNat = off - s.content.length := by omega
+    rw [write_good { content := s.content, pos := s.content.length, budget := s.budget } ⟨rfl, hb⟩, h2]
+    simp only [List.length_replicate, List.take_length]
+    rw [if_neg (by omega)]
+    unfold OStream.seekp
+    simp only [Bool.false_eq_true, if_false, List.length_append, List.length_replicate, Int.toNat_natCast]
+    rw [if_neg (by omega)]
+  · have h1 : ¬ ((s.content.length : Int) < (off : Int)) := by omega
+    simp only [h1, if_false]
+    unfold OStream.seekp
+    simp only [hf, Bool.false_eq_true, if_false]
+    rw [if_neg (by omega)]
+    have : off - s.content.length = 0 := by omega
+    rw [this]
+    simp only [List.replicate_zero, List.append_nil, Int.toNat_natCast, hb]
+
+theorem adjust_write_spec (s : OStream) (hg : s.Good) (off : Nat) (bs : Bytes) :
+    ((s.adjust (off : Int)).write bs).Good ∧
+    ((s.adjust (off : Int)).write bs).content.length = max s.content.length (off + bs.length) ∧
+    ∀ i : Nat, ((s.adjust (off : Int)).write bs).content[i]? =
+      if off ≤ i ∧ i < off + bs.length then bs[i - off]?
+      else if i < s.content.length then s.content[i]?
+      else if i < off then some 0 else none := by
+  rw [adjust_spec s hg, write_good _ ⟨rfl, rfl⟩]
+  simp only [List.length_append, List.length_replicate]
+  refine ⟨⟨rfl, rfl⟩, ?_, ?_⟩
+  · split
+    · rw [wr_length _ _ _ (by simp only [List.length_append, List.length_replicate]; omega)]
+      simp only [List.length_append, List.length_replicate]; omega
+    · simp only [List.length_append, List.length_take, List.length_replicate]; omega
+  · intro i
+    have hand : (if off ≤ i ∧ i < off + bs.length then bs[i - off]?
+      else if i < s.content.length then s.content[i]? else if i < off then some 0 else none) =
+      (if off ≤ i then (if i < off + bs.length then bs[i - off]?
+        else if i < s.content.length then s.content[i]? else if i < off then some 0 else none)
+      else if i < s.content.length then s.content[i]? else if i < off then some 0 else none) := by
+      by_cases h1 : off ≤ i <;> by_cases h2 : i < off + bs.length <;> simp [h1, h2]
+    rw [hand]
+    split
+    · rw [wr_getElem? _ _ _ _ (by simp only [List.length_append, List.length_replicate]; omega)]
+      simp only [List.getElem?_append, List.getElem?_replicate]
+      ite_omega
+    · simp only [List.getElem?_append, List.getElem?_take, List.getElem?_replicate, List.length_take,
+        List.length_append, List.length_replicate]
+      ite_omega
+      all_goals omega
+
+
+/-- **adjust + write** puts the bytes at `off` … -/
+theorem adjust_write_slice (s : OStream) (hg : s.Good) (off : Nat) (bs : Bytes) :
+    slice ((s.adjust (off : Int)).write bs).content off bs.length = bs := by
+  obtain ⟨_, hl, hi⟩ := adjust_write_spec s hg off bs
+  apply List.ext_getElem?
+  intro i
+  unfold slice
+  simp only [List.getElem?_take, List.getElem?_drop, hi]
+  by_cases h : i < bs.length
+  · simp only [h, if_true]
+    rw [if_pos (by omega)]
+    congr 1; omega
+  · simp only [h, if_false]
+    rw [List.getElem?_eq_none (by omega)]
+
+/-- … and changes nothing outside `[off, off + len)` below the old length -/
+theorem adjust_write_frame (s : OStream) (hg : s.Good) (off : Nat) (bs : Bytes) (a n : Nat)
+    (ha : a + n ≤ s.content.length) (hd : a + n ≤ off ∨ off + bs.length ≤ a) :
+    slice ((s.adjust (off : Int)).write bs).content a n = slice s.content a n := by
+  obtain ⟨_, hl, hi⟩ := adjust_write_spec s hg off bs
+  apply slice_eq_of_getElem?
+  intro i hin
+  rw [hi]
+  rw [if_neg (by omega), if_pos (by omega)]
+
+/-- a sequence of positioned writes -/
+def applyWrites (s : OStream) (ws : List (Nat × Bytes)) : OStream :=
+  ws.foldl (fun s w => (s.adjust (w.1 : Int)).write w.2) s
+
+/-- two positioned writes do not touch a common byte -/
+def WDisj (w1 w2 : Nat × Bytes) : Prop := w1.1 + w1.2.length ≤ w2.1 ∨ w2.1 + w2.2.length ≤ w1.1
+
+theorem applyWrites_frame (ws : List (Nat × Bytes)) (s : OStream) (hg : s.Good) (a n : Nat)
+    (ha : a + n ≤ s.content.length) (hd : ∀ w ∈ ws, a + n ≤ w.1 ∨ w.1 + w.2.length ≤ a) :
+    (applyWrites s ws).Good ∧ s.content.length ≤ (applyWrites s ws).content.length ∧
+      slice (applyWrites s ws).content a n = slice s.content a n := by
+  induction ws generalizing s with
+  | nil => exact ⟨hg, Nat.le_refl _, rfl⟩
+  | cons w rest ih =>
+    obtain ⟨g1, l1, _⟩ := adjust_write_spec s hg w.1 w.2
+    have f1 := adjust_write_frame s hg w.1 w.2 a n ha (hd w List.mem_cons_self)
+    have hle : s.content.length ≤ ((s.adjust (w.1 : Int)).write w.2).content.length := by rw [l1]; omega
+    obtain ⟨g2, l2, f2⟩ := ih _ g1 (by omega) (fun w' hw' => hd w' (List.mem_cons_of_mem _ hw'))
+    exact ⟨g2, Nat.le_trans hle l2, f2.trans f1⟩
+
+theorem applyWrites_good (ws : List (Nat × Bytes)) (s : OStream) (hg : s.Good) : (applyWrites s ws).Good :=
+  (applyWrites_frame ws s hg 0 0 (Nat.zero_le _) (fun _ _ => Or.inl (Nat.zero_le _))).1
+
+/-- **pairwise disjoint writes all end up in the stream** -/
+theorem applyWrites_slices (ws : List (Nat × Bytes)) (s : OStream) (hg : s.Good)
+    (hp : ws.Pairwise WDisj) : ∀ w ∈ ws, slice (applyWrites s ws).content w.1 w.2.length = w.2 := by
+  induction ws generalizing s with
+  | nil => intro w hw; cases hw
+  | cons w0 rest ih =>
+    intro w hw
+    obtain ⟨hp0, hpr⟩ := List.pairwise_cons.1 hp
+    obtain ⟨g1, l1, _⟩ := adjust_write_spec s hg w0.1 w0.2
+    rcases List.mem_cons.1 hw with h | h
+    · subst h
+      have := applyWrites_frame rest _ g1 w.1 w.2.length (by rw [l1]; omega) (fun w' hw' => by
+        have := hp0 w' hw'
+        unfold WDisj at this
+        omega)
+      show slice (applyWrites ((s.adjust (w.1 : Int)).write w.2) rest).content w.1 w.2.length = w.2
+      rw [this.2.2, adjust_write_slice s hg]
+    · exact ih _ g1 hpr w h
+
+/-! ### the writes of `save` as positioned writes -/
+
+theorem toInt_of_lt (x : BitVec 64) (h : x.toNat < 9223372036854775808) : x.toInt = (x.toNat : Int) := by
+  rw [BitVec.toInt_eq_toNat_cond]
+  simp only [Nat.reducePow]
+  rw [if_pos (by omega)]
+
+/-- the section header record and (for file-occupying, non-empty, resident sections) the data -/
+def secWrites (c : Cls) (enc : Enc) (shoff : BitVec 64) (shentsize : BitVec 16) (b : SecBuf) : List (Nat × Bytes) :=
+  (shoff.toNat + shentsize.toNat * b.index, encodeShdr c enc b) ::
+  (if b.stype != BitVec.ofNat 32 SHT_NOBITS && b.stype != BitVec.ofNat 32 SHT_NULL && b.size != 0 && b.data.isSome
+   then [(b.offset.toNat, (b.data.getD []).take b.size.toNat)] else [])
+
+def segWrite (c : Cls) (enc : Enc) (phoff : BitVec 64) (phentsize : BitVec 16) (g : Seg) : Nat × Bytes :=
+  (phoff.toNat + phentsize.toNat * g.index, encodePhdr c enc g)
+
+theorem saveSection_eq (c : Cls) (enc : Enc) (shoff : BitVec 64) (se : BitVec 16) (os : OStream) (b : SecBuf)
+    (hs : shoff.toNat < 9223372036854775808) (ho : b.offset.toNat < 9223372036854775808) :
+    saveSection c enc shoff se os b = applyWrites os (secWrites c enc shoff se b) := by
+  unfold saveSection secWrites applyWrites
+  have e1 : shoff.toInt + Int.ofNat se.toNat * Int.ofNat b.index = ((shoff.toNat + se.toNat * b.index : Nat) : Int) := by
+    rw [toInt_of_lt shoff hs]
+    simp only [Int.ofNat_eq_natCast, Int.natCast_add, Int.natCast_mul]
+  simp only [e1, toInt_of_lt b.offset ho]
+  split <;> rfl
+
+theorem saveSegment_eq (c : Cls) (enc : Enc) (phoff : BitVec 64) (pe : BitVec 16) (os : OStream) (g : Seg)
+    (hs : phoff.toNat < 9223372036854775808) :
+    saveSegment c enc phoff pe os g = applyWrites os [segWrite c enc phoff pe g] := by
+  unfold saveSegment segWrite applyWrites
+  have e1 : phoff.toInt + Int.ofNat pe.toNat * Int.ofNat g.index = ((phoff.toNat + pe.toNat * g.index : Nat) : Int) := by
+    rw [toInt_of_lt phoff hs]
+    simp only [Int.ofNat_eq_natCast, Int.natCast_add, Int.natCast_mul]
+  simp only [e1]
+  rfl
+
+theorem applyWrites_append (s : OStream) (a b : List (Nat × Bytes)) :
+    applyWrites s (a ++ b) = applyWrites (applyWrites s a) b := by
+  unfold applyWrites; rw [List.foldl_append]
+
+theorem foldl_saveSection_eq (c : Cls) (enc : Enc) (shoff : BitVec 64) (se : BitVec 16) (secs : List SecBuf)
+    (os : OStream) (hs : shoff.toNat < 9223372036854775808)
+    (ho : ∀ b ∈ secs, b.offset.toNat < 9223372036854775808) :
+    secs.foldl (saveSection c enc shoff se) os = applyWrites os (secs.flatMap (secWrites c enc shoff se)) := by
+  induction secs generalizing os with
+  | nil => rfl
+  | cons b rest ih =>
+    simp only [List.foldl_cons, List.flatMap_cons]
+    rw [saveSection_eq c enc shoff se os b hs (ho b List.mem_cons_self), applyWrites_append]
+    exact ih _ (fun b' hb' => ho b' (List.mem_cons_of_mem _ hb'))
+
+theorem foldl_saveSegment_eq (c : Cls) (enc : Enc) (phoff : BitVec 64) (pe : BitVec 16) (segs : List Seg)
+    (os : OStream) (hs : phoff.toNat < 9223372036854775808) :
+    segs.foldl (saveSegment c enc phoff pe) os = applyWrites os (segs.map (segWrite c enc phoff pe)) := by
+  induction segs generalizing os with
+  | nil => rfl
+  | cons g rest ih =>
+    simp only [List.foldl_cons, List.map_cons]
+    rw [saveSegment_eq c enc phoff pe os g hs]
+    have : applyWrites os (segWrite c enc phoff pe g :: rest.map (segWrite c enc phoff pe)) =
+        applyWrites (applyWrites os [segWrite c enc phoff pe g]) (rest.map (segWrite c enc phoff pe)) := by
+      rw [← applyWrites_append]; rfl
+    rw [this]
+    exact ih _
+
+/-- writing the header at the start of a good stream is a positioned write at 0 -/
+theorem seekp0_write_eq (os : OStream) (hg : os.Good) (h : Bytes) :
+    (os.seekp 0).write h = applyWrites os [(0, h)] := by
+  show _ = (os.adjust ((0 : Nat) : Int)).write h
+  rw [adjust_spec os hg 0]
+  obtain ⟨hf, hb⟩ := hg
+  unfold OStream.seekp
+  simp only [hf, Bool.false_eq_true, if_false]
+  rw [if_neg (by omega)]
+  simp only [Nat.zero_sub, List.replicate_zero, List.append_nil, Int.toNat_zero, hb]
+
+/-- everything `save` writes, as one list of positioned writes (for an object without address
+    translation): the ELF header, per section the header record and the data, the program headers -/
+def objWrites (c : Cls) (enc : Enc) (h : Bytes) (secs : List SecBuf) (segs : List Seg) : List (Nat × Bytes) :=
+  (0, h) :: (secs.flatMap (secWrites c enc (Hdr.e_shoff c enc h) (Hdr.e_shentsize c enc h)) ++
+    segs.map (segWrite c enc (Hdr.e_phoff c enc h) (Hdr.e_phentsize c enc h)))
+
+theorem trApply_nil (v : Int) : trApply [] v = v := rfl
+
+/-- the stream after a successful save = the stream before + the object's positioned writes -/
+theorem tailOs_eq (o : Obj) (os : OStream) (h0 : Bytes) (segs1 : List Seg) (lay : Layout) (done : List Seg)
+    (hg : os.Good) (htr : o.trans = [])
+    (hs : (Hdr.e_shoff o.cls o.enc (tailHdr o h0 segs1 lay done)).toNat < 9223372036854775808)
+    (hp : (Hdr.e_phoff o.cls o.enc (tailHdr o h0 segs1 lay done)).toNat < 9223372036854775808)
+    (ho : ∀ b ∈ tailSecs o segs1 lay done, b.offset.toNat < 9223372036854775808) :
+    tailOs o os h0 segs1 lay done =
+      applyWrites os (objWrites o.cls o.enc (tailHdr o h0 segs1 lay done) (tailSecs o segs1 lay done)
+        (tailSegs segs1 done)) := by
+  unfold tailOs tailOs1 objWrites
+  simp only [htr, trApply_nil]
+  rw [foldl_saveSection_eq _ _ _ _ _ _ hs ho, foldl_saveSegment_eq _ _ _ _ _ _ hp, seekp0_write_eq os hg,
+    ← applyWrites_append, ← applyWrites_append]
+  rfl
+
 end ElfioVerif
